@@ -100,6 +100,12 @@ func main() {
 			}
 			fmt.Println(prop, len(specs), "flow specs", len(reads), "read sets")
 		}
+	case "gen-mustwrite":
+		for _, prop := range os.Args[2:] {
+			c := rules.NewCtx(prop, "gen")
+			n, err := rules.GenMustWrite(c, prop)
+			fmt.Println(prop, n, "functions", err)
+		}
 	case "check":
 		tier := "quick"
 		if len(os.Args) > 3 {
